@@ -81,11 +81,13 @@ CLAIMED.update({
         "one obligation per panic-capable SSA instruction (nil dereference, index and slice bounds, unchecked type assertion, division, explicit panic, non-nil receiver/node arguments "
         "of repository calls) generated from the current tree and discharged under the theory ast-valid (what the parser and type checker guarantee, deliberately nothing about "
         "argument counts derived from a callee's spelling; every fact guarded by 'is a node of a parsed tree', so the all-zero sentinel nodes of astcast and hand-built nodes are excluded; "
-        "validated against 7 643 real files in the thorough tier) and theory regex-syntax-valid (arity of the regexp parser's operations). About 3020 of about 3220 obligations are proved on the "
+        "validated against 7 643 real files in the thorough tier) and theory regex-syntax-valid (arity of the regexp parser's operations). About 3540 of about 3750 obligations are proved on the "
         "unchanged tree and recorded in ledger/C01.proved; the check fails when one of them no longer discharges or is replaced by an undischarged one. The remaining obligations (listed in the "
         "evidence as undecided_not_claimed) are NOT claimed - an undecided obligation is a place nobody has looked at, two genuine crashes were found exactly there by sub-agents. The sweep relies on "
-        "the contracts of other properties at call sites (a change that breaks such a contract is reported by that property's check). Termination is not proved here (a stack overflow in sqlQuery "
-        "was found by a sub-agent, not by this check).",
+        "the contracts of other properties at call sites; the postconditions and loop invariants of those contracts are therefore obligations of this check as well (about 420). "
+        "Termination of recursion: every function on a cycle of the static call graph (16 functions) carries a `decreases` measure - astDepth of a syntax node, typeDepth of a type literal "
+        "(nothing is assumed about the underlying type of a defined type), rxDepth of a parsed regexp - or a stated reason (3 functions, listed as assumptions); one obligation per recursive call "
+        "(34 discharged, 18 about regexp walkers in the frontier). Loops without a decreases clause and recursion through function values are not examined.",
    design="§7 C01", technique="contract-based deductive verification, zero-annotation safety sweep with a ledger of proved obligations (SMT)"),
 })
 
@@ -106,8 +108,8 @@ CLAIMED.update({
         "the warning buffer of its own checker (frame obligations), the slots are empty before the spawn, and between `go` and wg.Wait() the parent touches nothing the goroutines may write "
         "(structural obligation on the spawn-to-join window); (2) the checkers of one run are pairwise distinct freshly constructed objects (initCheckers); (3) every access to the "
         "analyzer's process-wide cache (globalGocritic, globalInitErrorReported) happens with the mutex held (ghost lock state, deferred Unlock); (4) every constructor stores only state it "
-        "allocated itself into a new checker (parser, engine, maps, slices): no mutable object is shared between checker instances; (5) checkers write only their own state (property C05, "
-        "whose frame Check assumes). That disjoint write sets imply data-race freedom and sequentially consistent results is the standard meta-theorem and is not machine-checked here.",
+        "allocated itself into a new checker (parser, engine, maps, slices): no mutable object is shared between checker instances; (5) checkers write only their own state: the zero-annotation frame sweep of C05 (one obligation per heap write and per call, target freshly "
+        "allocated or owned by the checker) is discharged under this property as well, with its own ledger (about 2900 obligations proved, 85 undecided and not claimed). That disjoint write sets imply data-race freedom and sequentially consistent results is the standard meta-theorem and is not machine-checked here.",
    design="§7 C04", technique="contract-based deductive verification of frames, ownership and lock discipline (sufficient conditions; SMT)"),
 })
 
@@ -143,7 +145,9 @@ CLAIMED.update({
         "accepts it - exactly once and starting from that declaration's own body/node - so the work done for one declaration is decided by that declaration and the visitor alone; every "
         "implementation of EnterFunc accepts only functions with a body; the traversal callbacks visit each matching node once and consume the one-shot SkipChilds flag after every visit; "
         "skipChilds returns and clears the flag; the type-expression walker hands a node to the visitor only through visit(), which consumes the flag (so a flag set by one visit cannot leak into the next "
-        "node). Per-function scratch state is reset before use (property C03's reset-before-read obligations). The example-file clause of the property (re-running curated positive/negative files "
+        "node). Per-function scratch state is reset before use: the reset-before-read data-flow obligations "
+        "(every checker field written outside the constructor is re-initialised before it is read within its epoch) are part of this check, and CheckerContext.SizeOf/TypeOf are proved to be pure functions "
+        "of the sizes object / type information and their argument (no memo). The example-file clause of the property (re-running curated positive/negative files "
         "under padding and permutation) cannot be executed by contracts and is not decided; comment walkers are not under contract.",
    design="§7 C13", technique="contract-based deductive verification (interface-method contracts, per-iteration postconditions, ghost event logs; SMT)"),
 })
@@ -153,8 +157,9 @@ CLAIMED.update({
    text="Zero-annotation deductive sweep over all call sites of CheckerContext.Warn / WarnFixable / WarnWithPos / WarnFixableWithPos in package checkers (96 sites): the node that "
         "positions the diagnostic is a non-nil node of the analysed tree (never a node the checker built itself; astcopy copies keep positions) - pushed to the callers of warn helpers as "
         "call-site preconditions; the format string is a compile-time constant with exactly one verb per argument (decided syntactically; this is what keeps source text from being interpreted "
-        "as a format and producing '%!d(MISSING)' artefacts); every formatted node argument is non-nil. Plus contracts: the rule-engine reports are forwarded with position and fix unchanged; "
-        "the comment-formatting fix covers exactly the comment with a non-inverted range; asDiag forwards position and edit (C08). 209 of 222 obligations proved and recorded in ledger/C07.proved; "
+        "as a format and producing '%!d(MISSING)' artefacts); every formatted node argument is non-nil; an explicit position handed to WarnWithPos / WarnFixableWithPos "
+        "is the result of a Pos() method, a token.Pos field of a go/ast node, or a record field / parameter all of whose sources are such values - arithmetic on positions is rejected (decided on the SSA). Plus contracts: the rule-engine reports are forwarded with position and fix unchanged; "
+        "the comment-formatting fix covers exactly the comment with a non-inverted range; asDiag forwards position and edit (C08). 216 of 228 obligations proved and recorded in ledger/C07.proved; "
         "new or changed call sites must discharge. Not covered: positions and ranges computed inside the rule engine; that Pos() of a tree node is a token start (theory ast-valid).",
    design="§7 C07", technique="contract-based deductive verification, Warn-site sweep (call-site obligations; SMT + syntactic decisions on constant formats)"),
 })
@@ -177,8 +182,11 @@ CLAIMED.update({
         "imports, named by import path); from the point where the callee is recognised to the Warn call either every function carries the fact `the flagged call resolves to <API>` as a "
         "precondition that its callers discharge, or the single call that enters the analysis is gated by it; a call-graph obligation (decided by the generator) shows that inside each of "
         "these checkers no function reaches a diagnostic except through such a contract. Rule-based checkers: one generator-decided obligation per pattern of the precompiled rule data that "
-        "names a standard package - the selected member is spelled out, which is the condition under which the rule engine resolves the qualifier through type information (assumed behaviour "
-        "of the dependency). Ten spelling-based recognisers were genuine defects and were repaired (fix: commits, see known_findings.txt); three of them were also crash sites under C01.",
+        "names a standard package - the selected member is spelled out and the package is in the rule engine's own table of standard packages (read from the dependency's source on every run) or "
+        "imported by the rule group, which are the conditions under which the engine resolves the qualifier through type information (assumed behaviour of the dependency); a builtin (len, append, copy, ...) "
+        "in callee position must be a pattern variable restricted to the predeclared object; a standard function mentioned outside callee position is resolved only if the same qualifier is also the callee's "
+        "(four wrapperFunc patterns with `unicode.ToX` as an argument are known findings). Ten spelling-based recognisers and five rule groups that matched user-defined len/append/copy or "
+        "variables named maps/slices/cmp were genuine defects and were repaired (fix: commits, see known_findings.txt); three of them were also crash sites under C01.",
    design="§7 C20", technique="contract-based deductive verification (preconditions carried along call chains, gate clauses, SMT) + generator-decided call-graph and rule-pattern obligations"),
 })
 
@@ -195,10 +203,10 @@ CLAIMED.update({
         "the remaining rule-based claims are not covered.",
    design="§7 C12", technique="contract-based deductive verification (quantified claims as postconditions / call-site clauses; SMT lemmas over rule data)"),
  "C10": dict(
-   text="boolExprSimplify: every row of its rewrite tables is proved to be an equivalence over the integers at the point where it is applied (negated comparisons, a > b || a == b, the eight "
-        "range foldings, the eight +1/-1 shifts handed to `replace`, and that `replace` applies exactly the row it was given), operands are side-effect free and written identically, literal "
+   text="boolExprSimplify: every row of its rewrite tables is proved to be an equivalence over the integers at the point where it is applied (negated comparisons, a > b || a == b - this table, which has no float guard, also over "
+        "reals-or-NaN -, the eight range foldings, the eight +1/-1 shifts handed to `replace`, and that `replace` applies exactly the row it was given), operands are side-effect free and written identically, literal "
         "bounds are read in the base their spelling announces, and none of the integer-only rewrites is applied when the float guard is set; the guard is computed for the very expression "
-        "that is simplified next and inspects both operands of every binary sub-expression. Rule data (12 groups that promise an equivalent rewrite): per pattern, an SMT lemma that pattern "
+        "that is simplified next, inspects both operands of every binary sub-expression and counts type parameters as possibly float. Rule data (12 groups that promise an equivalent rewrite): per pattern, an SMT lemma that pattern "
         "and rewrite denote the same value under the stated semantics of strings/bytes Index/Contains/Compare/Join/len and time.Time.Unix*, or a listed definitional identity (Go specification, "
         "documented wrapper definitions); operands are evaluated as often and in the same order unless required pure/constant; type filters that the identity needs (exact string, slice). "
         "Two rewrites are genuinely wrong and recorded as known findings (timeExprSimplify: t.Unix()/1000 is not t.UnixMilli()), one was repaired (stringConcatSimplify operand order), two earlier "
@@ -211,10 +219,14 @@ CLAIMED.update({
    text="Rule data (every rule that carries a machine-applicable fix): the fix text parses as Go of the pattern's syntactic category once pattern variables are replaced by identifiers; every variadic "
         "wildcard of the pattern reappears in the fix, so nothing inside the replaced range is silently deleted; and type preservation decided by go/types on a probe package: for every typing of the "
         "pattern variables that the rule's filters allow (exact types for Type.Is, the type and a defined type over it for Underlying().Is, witness types for Implements; for unconstrained variables "
-        "every type of a 13-element candidate list under which the pattern type-checks - that part is BOUNDED) the fix type-checks and has the pattern's type up to default types. Hand-written: the "
+        "every type of a 13-element candidate list under which the pattern type-checks - that part is BOUNDED) the fix type-checks and has the pattern's type up to default types; "
+        "compound operands keep their grouping (for every admissible type a unary and a binary witness expression is substituted textually into pattern and fix, the syntax trees are compared modulo parentheses and the "
+        "regrouped text is type-checked); the fix can stand where the match stood (it is placed into every tighter context - index, slice, selector, unary, binary operand - in which the matched expression type-checks, "
+        "unless the rule excludes that parent kind); the fix names only packages the matched code names or the rule requires the file to import; statements matched by the pattern that declare a variable are not "
+        "replaced by a fix that no longer declares it. Hand-written: paramTypeCombine merges two parameters only when their type expressions are syntactically equal; underef keeps the parentheses of unary operands; the "
         "comment-formatting fix covers exactly the comment, inserts one space, yields a comment that no longer warns and owns its bytes (contract, SMT); the analyzer forwards a fix as one TextEdit "
-        "unchanged (C08). Three defects were found and repaired (strings.Cut fixes deleted the statements matched by $*_ and contained the placeholder `{ ... }`; preferStringWriter's fix did not compile "
-        "for []byte operands). NOT covered: the ~20 hand-written checkers that quote replacement code in messages (go/printer output is not parsed), applying a fix and re-analysing the file.",
+        "unchanged (C08). Defects found and repaired: strings.Cut fixes deleted the statements matched by $*_ and contained the placeholder `{ ... }`; preferStringWriter's fix did not compile "
+        "for []byte operands; redundantSprint/preferStringWriter/stringConcatSimplify fixes regrouped operands; dynamicFmtString/stringXbytes/httpNoBody/preferFilepathJoin fixes named packages the file may not import. NOT covered: the ~20 hand-written checkers that quote replacement code in messages (go/printer output is not parsed), applying a fix and re-analysing the file.",
    design="§7 C09", technique="rule-data obligations decided by the generator and by go/types (no solver) + contract on the comment-formatting fix (SMT)"),
 })
 
